@@ -522,6 +522,9 @@ func (vc *VC) verifyRun(fn *ssa.Function, fc *FuncContract, key, caseName string
 		pf := &Frame{fn: fn, env: top.env, ghost: top.ghost, entrySt: entry}
 		if o.Panic {
 			rep.Panics++
+			if fc.MayPanic {
+				continue // recovered by the callers (structural obligation)
+			}
 			var conds []Term
 			for _, c := range fc.Clauses {
 				if c.Kind == "panics_when" {
@@ -609,6 +612,9 @@ func (vc *VC) callFunctionTop(fn *ssa.Function, args []Val, bind []Val, st *Stat
 		fr.env[k] = v
 	}
 	fr.protected = vc.eng.hasRecover(fn)
+	if fr.contract != nil && fr.contract.MayPanic {
+		fr.protected = true
+	}
 	fr.entrySt = entry
 	if len(fn.Blocks) == 0 {
 		panic(execError{"no body for " + fn.String()})
